@@ -798,6 +798,10 @@ def reentry_stage(chk, eps, scenarios=("stale", "stale-pre", "stale-rebase", "mi
                 if sc == "midwalk" and ep in ("lookupAll", "subscriptions"):
                     continue
                 lines.append("%s %s %s" % (sc, fl, ep))
+    # ... and a MUTATOR interrupted by lookups: rebuild() takes everything out and puts it back; whatever a lookup made in between
+    # answers, nothing computed then may be served once rebuild() has returned (every 4th point; the C11 check visits all)
+    lines += ["inmut push same rebuild reenter 4 0", "inmut push below1 rebuild reenter 4 1", "inmut verifying below1 rebuild reenter 4 2",
+              "inmut push mixed rebuild reenter 4 3", "inmut push below2 replace reenter 4 0"]
     fails = []
     for m in ("c", "py"):
         try:
@@ -807,7 +811,7 @@ def reentry_stage(chk, eps, scenarios=("stale", "stale-pre", "stale-rebase", "mi
             continue
         chk.count("reentry_scenarios_%s" % m, len(lines))
         for l, o in zip(lines, out):
-            if o != "ok":
+            if not o.startswith("ok"):
                 fails.append(dict(mode=m, script=[l], message="%s -> %s" % (l, o), observed=o, layer="reentry"))
                 break
     return fails
@@ -824,7 +828,7 @@ def replay_reentry(prop, rep, path):
     out = core.run_impl("reentry", rep["script"], rep.get("mode", "c"))
     for l, o in zip(rep["script"], out):
         print("%-44s impl: %s" % (l, o))
-    if any(o != "ok" for o in out):
+    if any(not o.startswith("ok") for o in out):
         print("VIOLATION property=%s replay=%s" % (prop, path))
         return 1
     print("replay passes on the current tree")
